@@ -424,7 +424,17 @@ def mk_ite(c, a, b):
     if c[0] == "not":
         return ("ite", c[1], b, a)
     if c[0] == "cmp" and c[1] in ("!=", "is not", "not in"):
-        return ("ite", mk_not(c), b, a)
+        return mk_ite(mk_not(c), b, a)
+    if c[0] == "cmp" and c[1] == "is" and NONE in (c[2], c[3]):
+        # on the branch where `x is None` holds, x IS None: (x if x is None else f(x)) == (None if x is None else f(x))
+        x = c[3] if c[2] == NONE else c[2]
+        if x != NONE and x[0] in ("sym", "bv", "attr"):
+            kx = key(x)
+            a2 = subst(a, lambda s2: NONE if s2[0] == x[0] and key(s2) == kx else None)
+            if a2 is not a:
+                a = a2
+                if a == b:
+                    return a
     return ("ite", c, a, b)
 
 
@@ -436,9 +446,30 @@ LIFTS = {
 }
 
 
+# NamedTuple classes of the repository under analysis: qualified name -> field names in declaration order
+NT_CLASSES: dict = {}
+
+
+def nt_field(t, which):
+    """Field of a NamedTuple constructor call, by index or by name; None when t is not one / field not given."""
+    if t[0] == "call" and t[1][0] == "ext" and t[1][1] in NT_CLASSES and not any(a[0] == "star" for a in t[2]):
+        fields = NT_CLASSES[t[1][1]]
+        vals = dict(zip(fields, t[2]))
+        vals.update({k: v for k, v in t[3] if k in fields})
+        if isinstance(which, int):
+            if -len(fields) <= which < len(fields):
+                return vals.get(fields[which])
+            return None
+        return vals.get(which)
+    return None
+
+
 def proj(t, k: int):
     """Component k of a tuple-valued term, pushed through the constructs that commute
     with projection (ite, lifted functions, zip(*map), tuples)."""
+    v = nt_field(t, k)
+    if v is not None:
+        return v
     if t[0] in ("tuple", "list"):
         if 0 <= k < len(t[1]) and not any(x[0] == "star" for x in t[1]):
             return t[1][k]
@@ -535,7 +566,7 @@ for _q in ("exp", "tanh", "log", "sqrt"):
     SIGS[f"math.{_q}"] = (("a",), {})
 for _q in ("exp log log1p expm1 abs sign tanh arctanh sqrt isnan isfinite negative square "
            "reciprocal logical_not sort ravel argmin argmax shape size ndim "
-           "transpose diag_indices").split():
+           "transpose diag_indices cosh sinh cos sin arcsinh arccosh floor ceil round").split():
     _sig(f"jax.numpy.{_q}", "a")
 _sig("jax.numpy.asarray", "a dtype", dtype=None)
 _sig("jax.numpy.array", "a dtype", dtype=None)
@@ -559,6 +590,8 @@ _sig("jax.numpy.reshape", "a shape")
 _sig("jax.numpy.searchsorted", "a v side", side="left")
 _sig("jax.numpy.digitize", "x bins right", right=False)
 _sig("jax.numpy.nan_to_num", "x copy nan posinf neginf", copy=True)
+_sig("jax.numpy.append", "arr values axis", axis=None)
+_sig("jax.numpy.ravel", "a")
 _sig("jax.numpy.pad", "array pad_width mode", mode="constant")
 _sig("jax.numpy.full", "shape fill_value dtype", dtype=None)
 _sig("jax.numpy.zeros", "shape dtype", dtype=None)
@@ -672,6 +705,36 @@ def norm_call(f, args, kwargs, prog: Program | None = None):
             # numpy: for increasing bins, digitize(x, bins, right=r) == searchsorted(bins, x, side='left' if r else 'right')
             side = "left" if kwargs.get("right", C(False))[1] else "right"
             return norm_call(("ext", "jax.numpy.searchsorted"), (), {"a": kwargs["bins"], "v": kwargs["x"], "side": C(side)}, prog)
+        CMPF = {"jax.numpy.greater_equal": ">=", "jax.numpy.greater": ">", "jax.numpy.less": "<",
+                "jax.numpy.less_equal": "<=", "jax.numpy.equal": "==", "jax.numpy.not_equal": "!="}
+        if q in CMPF and len(args) + len(kwargs) == 2:
+            a2 = list(args) + [kwargs[k] for k in ("x1", "x2") if k in kwargs]
+            if len(a2) == 2:
+                return mk_cmp(CMPF[q], a2[0], a2[1])
+        if q == "jax.numpy.where" and not args and set(kwargs) == {"condition", "x", "y"}:
+            c0, x0, y0 = kwargs["condition"], kwargs["x"], kwargs["y"]
+
+            def like(v):
+                if v[0] == "call" and v[1] in (("ext", "jax.numpy.zeros_like"), ("ext", "jax.numpy.ones_like")) and \
+                        len(v[2]) + len(v[3]) == 1:
+                    return C(0 if v[1][1].endswith("zeros_like") else 1)   # a selection broadcasts its branches
+                return v
+            x1, y1 = like(x0), like(y0)
+            neg = None
+            if c0[0] == "not":
+                neg = c0[1]
+            elif c0[0] == "call" and c0[1] == ("ext", "jax.numpy.logical_not") and len(c0[2]) + len(c0[3]) == 1:
+                neg = c0[2][0] if c0[2] else c0[3][0][1]
+            if neg is not None:
+                # where(not c, a, b) selects exactly what where(c, b, a) selects
+                return norm_call(f, (), {"condition": neg, "x": y1, "y": x1}, prog)
+            if x1 is not x0 or y1 is not y0:
+                kwargs = {"condition": c0, "x": x1, "y": y1}
+        if q == "jax.numpy.append" and not args and set(kwargs) == {"arr", "values"}:
+            # numpy: append(arr, values) with axis=None is concatenate((ravel(arr), ravel(values)))
+            rv = lambda a: norm_call(("ext", "jax.numpy.ravel"), (), {"a": a}, prog)
+            return norm_call(("ext", "jax.numpy.concatenate"), (), {
+                "arrays": ("list", (rv(kwargs["arr"]), rv(kwargs["values"])))}, prog)
         if q == "jax.numpy.nan_to_num" and not args and set(kwargs) == {"x", "nan", "posinf", "neginf"} and \
                 kwargs["posinf"] == ("ext", "jax.numpy.inf") and kwargs["neginf"] == mk_neg(("ext", "jax.numpy.inf")):
             # infinities kept: only NaN is replaced
@@ -822,6 +885,10 @@ class Interp:
         self.path: list = []
         self.break_as_flag = False
         self.cond_effects: list = []
+        NT_CLASSES.clear()
+        for q, c in prog.classes.items():
+            if any(b.endswith("NamedTuple") for b in c.bases):
+                NT_CLASSES[q] = [f for f, fi in c.fields.items() if not fi.classvar]
 
     # ---------------------------------------------------------------- entry points
     def eval_method(self, cls: ClassInfo, name: str, args, kwargs=None, self_term=("sym", "self")):
@@ -992,6 +1059,8 @@ class Interp:
                 return ("ret", self.ev(st.value, env, ctx) if st.value is not None else NONE)
             if isinstance(st, ast.Raise):
                 return ("raise", self.ev(st.exc, env, ctx) if st.exc is not None else NONE)
+            if isinstance(st, ast.Continue):
+                return ("continue", env)
             if isinstance(st, ast.If):
                 test = self.ev(st.test, env, ctx)
                 if is_const(test):
@@ -1037,13 +1106,42 @@ class Interp:
                 if o1[0] == "fall" and o2[0] == "fall":
                     self.merge_env(env, test, e1, e2)
                     continue
+                if "continue" in (o1[0], o2[0]) and {o1[0], o2[0]} <= {"continue", "fall"}:
+                    # `if c: continue` - the rest of the loop body runs only on the other branch; afterwards the
+                    # iteration is over either way
+                    if o1[0] == "continue" and o2[0] == "continue":
+                        self.merge_env(env, test, e1, e2)
+                        return ("continue", env)
+                    live_env, cond = (e2, mk_not(test)) if o1[0] == "continue" else (e1, test)
+                    self.path.append(cond)
+                    try:
+                        r = self.exec_block(rest, live_env, ctx)
+                    finally:
+                        self.path.pop()
+                    if r[0] not in ("fall", "continue"):
+                        return ("ret", ("unknown", "return / raise after a conditional continue"))
+                    if o1[0] == "continue":
+                        self.merge_env(env, test, e1, live_env)
+                    else:
+                        self.merge_env(env, test, live_env, e2)
+                    return ("continue", env)
                 if o1[0] == "fall":
+                    # the other branch left (return / raise): what follows runs under `test`, exactly as if it were
+                    # written inside the branch
                     env.vars = e1.vars
-                    r = self.exec_block(rest, env, ctx)
+                    self.path.append(test)
+                    try:
+                        r = self.exec_block(rest, env, ctx)
+                    finally:
+                        self.path.pop()
                     return self.merge_outcome(test, r, o2, st)
                 if o2[0] == "fall":
                     env.vars = e2.vars
-                    r = self.exec_block(rest, env, ctx)
+                    self.path.append(mk_not(test))
+                    try:
+                        r = self.exec_block(rest, env, ctx)
+                    finally:
+                        self.path.pop()
                     return self.merge_outcome(test, o1, r, st)
                 return self.merge_outcome(test, o1, o2, st)
             self.exec_stmt(st, env, ctx)
@@ -1229,6 +1327,32 @@ class Interp:
         else:
             raise AnalysisError(f"unmodelled assignment target {type(target).__name__}")
 
+    _REDUCE_LOOP = ast.parse("for __x in __xs:\n    __acc = __f(__acc, __x)\n").body[0]
+    _REDUCE_LOOP_NOINIT = ast.parse("__acc = __xs[0]\nfor __x in __xs[1:]:\n    __acc = __f(__acc, __x)\n").body
+
+    def _reduce_as_loop(self, args, ctx):
+        f, xs = args[0], args[1]
+        xs = xs if isinstance(xs, tuple) else self.reify(xs)
+        if isinstance(f, tuple) and f[0] not in ("ext", "lam"):
+            return None
+        env = Env()
+        env.set("__f", f)
+        env.set("__xs", xs)
+        n0 = len(self.guards)
+        try:
+            if len(args) == 3:
+                init = args[2] if isinstance(args[2], tuple) else self.reify(args[2])
+                env.set("__acc", init)
+                self.exec_for(self._REDUCE_LOOP, env, ctx)
+            else:
+                out = self.exec_block(list(self._REDUCE_LOOP_NOINIT), env, ctx)
+                if out[0] != "fall":
+                    return None
+        except AnalysisError:
+            del self.guards[n0:]
+            return None
+        return env.get("__acc")
+
     def exec_for(self, st: ast.For, env: Env, ctx):
         it = self.ev(st.iter, env, ctx)
         # static unrolling over a literal tuple/list
@@ -1236,7 +1360,7 @@ class Interp:
             for item in it[1]:
                 self.assign(st.target, item, env, ctx)
                 out = self.exec_block(st.body, env, ctx)
-                if out[0] != "fall":
+                if out[0] not in ("fall", "continue"):
                     # conservative: a return/raise inside an unrolled loop
                     if out[0] == "raise":
                         continue
@@ -1266,7 +1390,11 @@ class Interp:
                 if not [i2 for i2 in free_bvs(g[1], d) if i2 >= 1]:
                     anyt = ("call", ("ext", "builtins.any"), (("map", ("lam", 1, g[1], d), it),), ())
                     self.guards[gi] = (g[0], anyt) + tuple(g[2:])
-        if out[0] != "fall":
+                else:
+                    # the test reads the loop-carried state: when it fires is a property of the whole fold, which
+                    # the guard comparison cannot relate to a closed-form predicate
+                    self.guards[gi] = ("raise-in-callback",) + tuple(g[1:])
+        if out[0] not in ("fall", "continue"):
             why = f"{out[0]} inside for-loop"
             if out[0] == "raise":
                 # a loop whose body always raises?  treat as guard loop
@@ -1368,6 +1496,14 @@ class Interp:
         if v is not None:
             return v
         m: Module = ctx[0]
+        if name in m.assigns and name not in m.functions and name not in m.classes:
+            # a module-level constant that is a literal (tuple / list of constants, number, string)
+            try:
+                val = ast.literal_eval(m.assigns[name])
+            except Exception:
+                val = None
+            if isinstance(val, (tuple, list)) and all(isinstance(x, (str, int, float, bool, type(None))) for x in val):
+                return ("tuple" if isinstance(val, tuple) else "list", tuple(C(x) for x in val))
         if name in m.functions or name in m.classes or name in m.assigns or name in m.aliases:
             return ("ext", self.prog.resolve(m, name))
         return ("ext", f"builtins.{name}")
@@ -1529,6 +1665,9 @@ class Interp:
         return subst_free(lam[2], lvl, rn)
 
     def attr(self, obj, name, ctx):
+        v = nt_field(obj, name)
+        if v is not None:
+            return v
         if obj[0] == "ext":
             return ("ext", self.prog.canonical(f"{obj[1]}.{name}"))
         if obj[0] == "const" and isinstance(obj[1], str):
@@ -1652,6 +1791,12 @@ class Interp:
             return self.call(f.fn, list(f.args) + list(args), kw, ctx, node)
         if f[0] == "ext":
             q = f[1]
+            if q == "functools.reduce" and len(args) in (2, 3) and not kwargs and not opaque_args:
+                # reduce(f, xs[, init]) is the loop  acc = init; for x in xs: acc = f(acc, x)  - run it through the
+                # ordinary for-loop model (unrolls over literal sequences, folds over symbolic ones)
+                r = self._reduce_as_loop(args, ctx)
+                if r is not None:
+                    return r
             if q in ("functools.reduce", "itertools.accumulate") and args and not isinstance(args[0], tuple):
                 # an iteration combinator the engine does not unfold: a `raise` inside its callback is recorded as
                 # such (when it fires cannot be related to a guard of the enclosing function)
@@ -1670,10 +1815,31 @@ class Interp:
                     return r
             r = self.prog.lookup(q) if q.startswith("flowjax") else None
             if r and r[0] == "func" and self.inline_repo and q not in self.no_inline and self.stack.count(q) == 0:
-                decs = [ast.unparse(d) for d in r[2].decorator_list]
+                mctx = (r[1], None, None)
+                decs = []
+                for dec in r[2].decorator_list:
+                    dsrc = ast.unparse(dec).replace(" ", "")
+                    # compilation / metadata decorators do not change what the function computes
+                    if dsrc in ("eqx.filter_jit", "jax.jit", "jit", "staticmethod", "functools.cache", "cache") or \
+                            dsrc.startswith(("partial(jit", "functools.partial(jit", "partial(jax.jit", "wraps(",
+                                             "functools.wraps(", "functools.partial(jax.jit", "lru_cache", "functools.lru_cache")):
+                        continue
+                    decs.append(dec)
                 self.stack.append(q)
                 try:
-                    return self.apply_def(r[2], Env(), (r[1], None, None), args, kwargs)
+                    if not decs:
+                        return self.apply_def(r[2], Env(), mctx, args, kwargs)
+                    # a transforming decorator (eqx.filter_vmap, ...): apply it to the function value, as for a
+                    # nested def, then call the result
+                    val = Closure(r[2], Env(), mctx, r[2].name)
+                    undecorated = ast.FunctionDef(name=r[2].name, args=r[2].args, body=r[2].body, decorator_list=[],
+                                                  returns=r[2].returns, type_comment=None, lineno=r[2].lineno,
+                                                  col_offset=r[2].col_offset)
+                    val = Closure(undecorated, Env(), mctx, r[2].name)
+                    for dec in reversed(decs):
+                        d = self.eval(dec, Env(), mctx)
+                        val = self.call(d, [val], {}, mctx)
+                    return self.call(val, args, kwargs, ctx, node)
                 finally:
                     self.stack.pop()
             lit = self._literal_builtin(q, args, kwargs)
